@@ -24,9 +24,9 @@ from report import Reporter
 
 TIERS = {
     "quick": [dict(MaxLen=2, Shape='"all"'), dict(MaxLen=3, Shape='"vrv"')],
-    "thorough": [dict(MaxLen=3, Shape='"all"')],
+    "thorough": [dict(MaxLen=2, Shape='"all"'), dict(MaxLen=3, Shape='"vrv"')],   # 3 steps of any shape = 2M histories
 }
-SIM = {"quick": dict(num=6, depth=7, workers=8), "thorough": dict(num=60, depth=10, workers=16)}
+SIM = {"quick": dict(num=6, depth=7, workers=8), "thorough": dict(num=40, depth=10, workers=16)}
 PREFIX = {"C08": "C08:", "C13": "C13:", "C15": "C15:"}
 
 
@@ -340,7 +340,7 @@ def run(pid, tier, replay_file=None):
         # simulation exports every successor of every visited state: keep the long histories
         longs = [l for l in lines if len(l["hist"]) >= 4]
         longs.sort(key=lambda l: json.dumps(l["hist"], sort_keys=True))
-        states += longs[:: max(1, len(longs) // (800 if tier == "quick" else 8000))]
+        states += longs[:: max(1, len(longs) // (800 if tier == "quick" else 20000))]
         tlc_meta.append(dict(simulate=s, states=smeta["states"], kept=len(states)))
     inits = [s for s in states if not s["hist"] and s["init"]["values"]]
     if not inits:
